@@ -127,8 +127,8 @@ func vtC19CpusetGen(r *rand.Rand, i int) (string, []int64) {
 		var prev int64
 		for f := 0; f < m; f++ {
 			v := num()
-			if f == 1 && r.Intn(3) != 0 {
-				v = prev + int64(r.Intn(6)) // mostly ascending ranges, sometimes reversed
+			if f == 1 && (r.Intn(3) != 0 || (v > prev+48 && v < 1<<31)) {
+				v = prev + int64(r.Intn(6)) // mostly short ascending ranges, sometimes reversed (wide ones only cost time)
 			}
 			if style == "parse-malformed" && r.Intn(5) == 0 {
 				v = int64(-1 - r.Intn(2))
